@@ -323,7 +323,10 @@ class ModuleParser:
         k, v = p.next()
         if v == "alias":
             ty = p.parse_type(); p.expect(",")
-            val = self.parse_typed_value(p, None)
+            if p.peek()[0] == "word" and p.peek()[1] in CAST_OPS:
+                val = self.parse_value(p, None, None)
+            else:
+                val = self.parse_typed_value(p, None)
             m.aliases[name] = val
             return
         if v == "constant": const = True
@@ -1325,6 +1328,11 @@ class Emitter:
                 ty = IntT(bits)
                 cmp = self.icmp_expr({"umax": "ugt", "umin": "ult", "smax": "sgt", "smin": "slt"}[k], ty, a[0], a[1])
                 out += ["  %s = %s ? %s : %s;" % (self.lname(I.res), cmp, a[0], a[1])]
+            elif re.match(r'llvm\.(usub|uadd)\.sat\.i(\d+)', base):
+                mm = re.match(r'llvm\.(usub|uadd)\.sat\.i(\d+)', base); ty = IntT(int(mm.group(2))); T = self.ctype(ty)
+                decl(I.res, rty)
+                if mm.group(1) == "usub": out += ["  %s = (%s > %s) ? (%s)(%s - %s) : (%s)0;" % (self.lname(I.res), a[0], a[1], T, a[0], a[1], T)]
+                else: out += ["  %s = ((%s)(%s + %s) < %s) ? (%s)~(%s)0 : (%s)(%s + %s);" % (self.lname(I.res), T, a[0], a[1], a[0], T, T, T, a[0], a[1])]
             elif re.match(r'llvm\.abs\.i(\d+)', base):
                 bits = int(re.match(r'llvm\.abs\.i(\d+)', base).group(1)); ty = IntT(bits)
                 decl(I.res, rty)
@@ -1566,8 +1574,14 @@ class Emitter:
 def scan_stub_names(paths):
     names = set()
     for p in paths:
-        for mm in re.finditer(r'\b(X_[A-Za-z0-9_]+)\s*\(', open(p).read()):
+        txt = open(p).read()
+        for mm in re.finditer(r'\b(X_[A-Za-z0-9_]+)\s*\(', txt):
             names.add(mm.group(1))
+        for mm in re.finditer(r'^VF_EXC_CLASS\((\w+)\)', txt, re.M):
+            n = mm.group(1)
+            S = "RKNSt7__cxx1112basic_stringIcSt11char_traitsIcESaIcEEE"
+            for suf in ("C1EPKc", "C2EPKc", "C1E" + S, "C2E" + S, "D1Ev", "D2Ev", "D0Ev"):
+                names.add("X__ZN" + n + suf)
     return names
 
 def translate(ir_text, entries, stub_paths, havoc=(), noop_re=(), replace=()):
